@@ -291,6 +291,28 @@ def _seq_step(s, op):
         for m in s.messages_rel():
             e(m)
         return s, "ok"
+    if name in ("editAbsPeek", "editRelPeek"):
+        # edit while iterating, reading the *other* view between receiving a message and editing it
+        e = _edit(op[1], op[2])
+        if name == "editAbsPeek":
+            for m in s.messages_abs():
+                s.rel
+                e(m)
+        else:
+            for m in s.messages_rel():
+                s.abs
+                e(m)
+        return s, "ok"
+    if name in ("editAbsFirst", "editRelFirst"):
+        # edit only the first message (after peeking at the other view), then abandon the iterator
+        e = _edit(op[1], op[2])
+        gen = s.messages_abs() if name == "editAbsFirst" else s.messages_rel()
+        for m in gen:
+            (s.rel if name == "editAbsFirst" else s.abs)
+            e(m)
+            break
+        gen.close()
+        return s, "ok"
     if name == "transpose":
         return s, p_bool(s.transpose(op[1]))
     if name == "scale":
@@ -327,7 +349,7 @@ def _enc_seq_op(op):
         return [name] + enc_many(enc_msgs, op[1])
     if name in ("overwriteAbs", "overwriteRel"):
         return [name] + enc_msgs(op[1])
-    if name in ("editAbs", "editRel"):
+    if name in ("editAbs", "editRel", "editAbsPeek", "editRelPeek", "editAbsFirst", "editRelFirst"):
         return [name, w(op[1]), w(op[2])]
     if name == "scale":
         return [name, w(op[1]), w(op[2])]
